@@ -393,6 +393,17 @@ func (g *dgen) target() *sx.Node {
 		return strLit("Nowhere")
 	}
 	name := g.pick(g.nodes)
+	if g.cfg.loopPct > 0 && len(g.nodes) > 2 && g.r.Intn(6) == 0 {
+		// a computed destination that names a different node every time the statement runs again
+		// (lc is the loop counter every looping node increments): "N" + string(1 + lc % k)
+		k := float64(2 + g.r.Intn(len(g.nodes)-2))
+		var counter *sx.Node = varRef("lc")
+		if g.cfg.visitedFns && g.r.Intn(3) != 0 {
+			// the visit count of some node: it has changed whenever a cycle of jumps comes back here
+			counter = fnCall("visited_count", strLit(g.pick(g.nodes)))
+		}
+		return binOp("+", strLit("N"), fnCall("string", binOp("+", numLit(1), binOp("%", counter, numLit(k)))))
+	}
 	if g.r.Intn(4) == 0 {
 		// jump by expression
 		if g.r.Intn(2) == 0 && len(name) > 1 {
@@ -683,6 +694,11 @@ func (g *dgen) domainFault() *sx.Node {
 
 // randomCall: a call of one of the random built-ins inside its domain.
 func (g *dgen) randomCall() *sx.Node {
+	if g.r.Intn(12) == 0 {
+		// wider than an int64 can count: refused, the same way in every run
+		lo := []float64{-9000000000000000000, -9223372036854775808, -5e18}[g.r.Intn(3)]
+		return fnCall("random_range", g.lit(lo), numLit([]float64{9000000000000000000, 9223372036854774784, 5e18}[g.r.Intn(3)]))
+	}
 	switch g.r.Intn(4) {
 	case 0:
 		return fnCall("dice", numLit(float64(1+g.r.Intn(20))))
